@@ -1338,6 +1338,8 @@ impl KmerMinHashBTree {
                         abunds.get(hash).unwrap_or(&0) + oabunds.get(hash).unwrap_or(&0);
                 }
                 self.abunds = Some(new_abunds)
+            } else {
+                self.abunds = None;
             }
         }
         self.current_max = *self.mins.iter().next_back().unwrap_or(&0);
